@@ -65,7 +65,7 @@ CHECKS = {
         category="exploration",
         text="Seeded deterministic simulation of 2-3 whole DomainParticipants (engine E2) through the public API only: a seed-chosen interleaving of creating participants, TransientLocal/Volatile reliable KeepAll writers and readers (up to 3+3), writing values (8 B to 3 KiB, every residue mod 4 around the 1024 B fragment size) and disposes, taking, deleting readers/writers/participants and letting time pass, under datagram loss up to 30 %, duplication, jitter, partitions that heal and participants that stall for up to 4 s. Then the faults stop and, within 90 simulated seconds, every compatible pair must deliver a probe sample written 10 s later (bounded liveness of discovery+matching in every creation order); streams are in order and unaltered at all times and complete (TransientLocal pair: whole retained history; otherwise everything since the first delivered sample); Volatile/TransientLocal incompatible pairs are never matched; a reader receives nothing that was certainly history when it was created unless both sides are TransientLocal; deleted endpoints/participants are seen by matched peers as unmatch/lost events.",
         design_ref="DESIGN.md section 5 C07, section 12",
-        note="Security off in this check (E3 not built). Pairs whose SPDP traffic had a gap > 5 s or that saw an unmatch are only held to order/content. 'History' excludes anything possibly in flight (written < 1 s before, or a loss/duplicate/stall since). Found and fixed: late-created local endpoints never matched with already discovered remote ones (72e1504); SEDP samples dropped by the participant filter on rediscovery (e3c29df). Known findings (reported, exit 0): TransientLocal writer hands history to a Volatile reader; history showing through the per-participant shared receive cache to a new sibling reader.",
+        note="Security off in this check. Pairs whose SPDP traffic had a gap > 5 s or that saw an unmatch are only held to order/content. 'History' excludes anything possibly in flight (written < 1 s before, or a loss/duplicate/stall since). Found and fixed: late-created local endpoints never matched with already discovered remote ones (72e1504); SEDP samples dropped by the participant filter on rediscovery (e3c29df). Known findings (reported, exit 0): TransientLocal writer hands history to a Volatile reader; history showing through the per-participant shared receive cache to a new sibling reader.",
         technique=TECH + "; whole-participant simulation, bounded-liveness and stream-completeness oracles over the public API",
     ),
     "C08": dict(
